@@ -257,6 +257,16 @@ func runBktScenario(rep *Report, sc bktScenario, tag string) {
 			case "del":
 				_ = cur.Delete([]byte(unhx(f[2])))
 				add(fmt.Sprintf("del %s %s", f[0], f[2]), "ok")
+			case "nseq":
+				_, _ = cur.NextSequence()
+				add(fmt.Sprintf("nseq %s", f[0]), "ok")
+			case "get":
+				v := cur.Get([]byte(unhx(f[2])))
+				w := "nil"
+				if v != nil {
+					w = "v:" + valToken(v)
+				}
+				add(fmt.Sprintf("get %s %s", f[0], f[2]), w)
 			case "seq":
 				var n uint64
 				fmt.Sscan(f[2], &n)
@@ -456,7 +466,11 @@ func bktGenScenario(rng *rand.Rand, ntx int) bktScenario {
 				tx.Ops = append(tx.Ops, p+" rm "+name)
 				delete(s.kids, name)
 			case r < 6:
-				tx.Ops = append(tx.Ops, fmt.Sprintf("%s seq %d", p, rng.Intn(1000)))
+				if rng.Intn(2) == 0 {
+					tx.Ops = append(tx.Ops, fmt.Sprintf("%s seq %d", p, rng.Intn(1000)))
+				} else {
+					tx.Ops = append(tx.Ops, p+" nseq")
+				}
 			case r < 7: // a path that does not resolve / a key that is a bucket
 				if rng.Intn(2) == 0 {
 					tx.Ops = append(tx.Ops, hx("nosuch")+" put "+key(1)+" "+val())
@@ -488,10 +502,16 @@ func bktGenScenario(rng *rand.Rand, ntx int) bktScenario {
 						delete(s.keys, ks[j])
 					}
 				}
-			case r < 16:
+			case r < 14:
 				k := rng.Intn(400)
 				tx.Ops = append(tx.Ops, p+" put "+key(k)+" "+val())
 				s.keys[k] = true
+			case r < 16: // reads inside the write transaction (own writes, missing keys, bucket names)
+				if rng.Intn(4) == 0 {
+					tx.Ops = append(tx.Ops, p+" get "+hx(fmt.Sprintf("b%d", rng.Intn(6))))
+				} else {
+					tx.Ops = append(tx.Ops, p+" get "+key(rng.Intn(400)))
+				}
 			default:
 				k := rng.Intn(400)
 				tx.Ops = append(tx.Ops, p+" del "+key(k))
